@@ -95,6 +95,7 @@ Proof.
   intros Hais Hs. unfold hc_decide.
   destruct ((status =? ARES_EDESTRUCTION) || (status =? ARES_ECANCELLED)) eqn:E1.
   { intros [= <- _]. intros ->. apply orb_prop in E1. destruct E1 as [E|E]; apply Z.eqb_eq in E; discriminate E. }
+  destruct (hs_nomem nodata); [intros [= <- _]; discriminate|].
   destruct (negb (ais =? ARES_SUCCESS) && negb (ais =? ARES_ENODATA)) eqn:E2.
   { destruct Hais as [-> | ->]; discriminate E2. }
   destruct (negb (is_nil (ai_nodes ai))) eqn:E3.
@@ -126,17 +127,17 @@ Proof.
       destruct (hc_parse_nodes family port ai r Hr Hall) as [Hn Hst].
       pose proof (hc_parse_success_nodes family port ai r Hr Hall) as Hsn.
       destruct (hc_parse family port ai r) as [ais ai1] eqn:Ep. cbn [fst snd] in *.
-      destruct (hc_decide sl (qres_status r) ais ai1 nodata) as [d0 nd0] eqn:Ed.
+      destruct (hc_decide sl (qres_status r) ais ai1 (hc_note (qres_status r) ais false nodata)) as [d0 nd0] eqn:Ed.
       injection Hrun as <- <- <-.
       split; [cbn [flat_map]; rewrite app_nil_r; exact Hn|].
-      apply (hc_decide_cases sl (qres_status r) ais ai1 nodata d0 nd0 Hst); [|exact Ed].
+      apply (hc_decide_cases sl (qres_status r) ais ai1 (hc_note (qres_status r) ais false nodata) d0 nd0 Hst); [|exact Ed].
       intros Hs Ha. apply Hsn; assumption.
     + (* another sub-query is still outstanding *)
       cbn [firstn] in Hwf. inversion Hwf as [|? ? Hr Hrest]; subst.
       destruct (hc_parse_nodes family port ai r Hr Hall) as [Hn _].
       pose proof (hc_parse_wanted family port ai r Hr Hall) as Hw.
       destruct (hc_parse family port ai r) as [ais ai1] eqn:Ep. cbn [fst snd] in *.
-      destruct (IH (S rem) ai1 nodata d ai' nodata' ltac:(lia) Hrest Hw Hrun) as [Hn2 Hd].
+      destruct (IH (S rem) ai1 (hc_note (qres_status r) ais true nodata) d ai' nodata' ltac:(lia) Hrest Hw Hrun) as [Hn2 Hd].
       split; [|exact Hd].
       rewrite Hn2, Hn. cbn [firstn flat_map]. rewrite app_assoc. reflexivity.
 Qed.
@@ -175,17 +176,18 @@ Lemma hc_decide_next_status sl status ais ai nodata st nodata' :
 Proof.
   unfold hc_decide.
   destruct ((status =? ARES_EDESTRUCTION) || (status =? ARES_ECANCELLED)); [discriminate|].
+  destruct (hs_nomem nodata); [discriminate|].
   destruct (negb (ais =? ARES_SUCCESS) && negb (ais =? ARES_ENODATA)).
   { destruct ((ais =? ARES_EBADRESP) && negb (is_nil (ai_nodes ai))); discriminate. }
   destruct (negb (is_nil (ai_nodes ai))); [discriminate|].
   destruct ((status =? ARES_ENOTFOUND) || (status =? ARES_ENODATA) || (ais =? ARES_ENODATA)) eqn:E4.
   { destruct ((status =? ARES_ENODATA) || (ais =? ARES_ENODATA)) eqn:E5; cbn [Nat.eqb].
     - intros [= <- _]. discriminate.
-    - destruct (Nat.eqb nodata 0); intros [= <- _]; [|discriminate].
+    - destruct (Nat.eqb (hs_nodata nodata) 0); intros [= <- _]; [|discriminate].
       apply orb_false_elim in E5. destruct E5 as [E5 E6]. rewrite E5, E6, !orb_false_r in E4.
       apply Z.eqb_eq in E4. rewrite E4. discriminate. }
   destruct (((status =? ARES_ESERVFAIL) || (status =? ARES_EREFUSED)) && sl) eqn:E5; [|discriminate].
-  destruct (Nat.eqb nodata 0); intros [= <- _]; [|discriminate].
+  destruct (Nat.eqb (hs_nodata nodata) 0); intros [= <- _]; [|discriminate].
   apply andb_prop in E5. destruct E5 as [E5 _]. apply orb_prop in E5.
   destruct E5 as [E|E]; apply Z.eqb_eq in E; rewrite E; discriminate.
 Qed.
@@ -196,9 +198,9 @@ Proof.
   induction arrivals as [|r rest IH]; intros remaining ai nodata st ai' nodata' Hrun; [discriminate|].
   cbn [run_round] in Hrun. destruct (hc_parse family port ai r) as [ais ai1].
   destruct remaining as [|[|rem]].
-  - destruct (hc_decide sl (qres_status r) ais ai1 nodata) as [d0 nd0] eqn:Ed. injection Hrun as -> _ _.
+  - destruct (hc_decide sl (qres_status r) ais ai1 (hc_note (qres_status r) ais false nodata)) as [d0 nd0] eqn:Ed. injection Hrun as -> _ _.
     exact (hc_decide_next_status _ _ _ _ _ _ _ Ed).
-  - destruct (hc_decide sl (qres_status r) ais ai1 nodata) as [d0 nd0] eqn:Ed. injection Hrun as -> _ _.
+  - destruct (hc_decide sl (qres_status r) ais ai1 (hc_note (qres_status r) ais false nodata)) as [d0 nd0] eqn:Ed. injection Hrun as -> _ _.
     exact (hc_decide_next_status _ _ _ _ _ _ _ Ed).
   - exact (IH _ _ _ _ _ _ Hrun).
 Qed.
@@ -313,11 +315,11 @@ Proof.
       [apply orb_prop in Ev; destruct Ev as [Ev|Ev]|]; apply Z.eqb_eq in Ev; auto. }
   destruct (fake_addrinfo name family port flags p4 p6) as [|lit|fst]; [|intros [= <-]; reflexivity|discriminate].
   change (negb (ARES_SUCCESS =? ARES_SUCCESS)) with false. cbv iota.
-  destruct (next_lookup hf name family port flags lookups rounds ai_empty 0 ARES_ECONNREFUSED) as [[st ai1]| |] eqn:En;
+  destruct (next_lookup hf name family port flags lookups rounds ai_empty hst0 ARES_ECONNREFUSED) as [[st ai1]| |] eqn:En;
     cbn [bind]; try discriminate.
   destruct (Z.eqb_spec st ARES_SUCCESS) as [E|E]; [|intros [= Hx]; congruence].
   intros [= _ <-].
-  apply (next_lookup_spec hf name family port flags lookups rounds ai_empty 0 ARES_ECONNREFUSED st ai1 Hf Hwf eq_refl);
+  apply (next_lookup_spec hf name family port flags lookups rounds ai_empty hst0 ARES_ECONNREFUSED st ai1 Hf Hwf eq_refl);
     [discriminate | exact En | exact E].
 Qed.
 
